@@ -8,7 +8,7 @@ for d in seeded/${1:-C}*/; do
   id=$(basename "$d")
   [ -f "$d/meta.json" ] || continue
   prop=$(python3 -c "import json,sys;print(json.load(open('$d/meta.json'))['property'])")
-  if ! git -C /repo apply --check "$d/patch.diff" 2>/dev/null; then
+  if ! git -C /repo apply --check "/verif/$d/patch.diff" 2>/dev/null; then
     echo "$id $prop patch-does-not-apply" >> $out.new; continue
   fi
   tools/try_mutant.sh "$d/patch.diff" "$prop" --tier quick > /tmp/all-mutants-last.log 2>&1
